@@ -30,6 +30,8 @@ pub struct IoParams {
     pub use_splice: bool,
 }
 
+const MAX_BUFFER_SIZE: usize = 1 << 30;
+
 impl Default for IoParams {
     fn default() -> Self {
         Self {
@@ -43,7 +45,14 @@ impl Config {
     pub async fn load(path: &str) -> Result<Self, Error> {
         let s = tokio::fs::read(path).await.context("read file")?;
         let s = String::from_utf8(s).context("parse utf8")?;
-        serde_yaml::from_str(&s).context("parse yaml")
+        let cfg: Self = serde_yaml::from_str(&s).context("parse yaml")?;
+        // the copy loop allocates two buffers of this size per tunnel
+        easy_error::ensure!(
+            cfg.io_params.buffer_size > 0 && cfg.io_params.buffer_size <= MAX_BUFFER_SIZE,
+            "ioParams.bufferSize must be between 1 and {}",
+            MAX_BUFFER_SIZE
+        );
+        Ok(cfg)
     }
 }
 
